@@ -52,6 +52,10 @@ var c14Values = []string{
 	"XFD1048576", "A0", "A1048577", "ZZZZZZZZZZZZZZZ1", "A1:XFD1048576", "-3", "16385", "65536",
 }
 
+// string payloads for the text nodes of shared-string and worksheet parts: a value ending in every prefix
+// of an `_xHHHH_` escape (the unescaping of basic strings slices at the escape positions)
+var c14BstrValues = []string{"hello_", "hello_x", "hello_x0", "hello_x00", "hello_x000", "hello_x000A", "hello_x000A_", "_x005F", "_x005F_x000A", "_xD800_"}
+
 func c14RepoDir() string {
 	if d := os.Getenv("VERIF_REPO"); d != "" {
 		return d
@@ -384,7 +388,9 @@ func (m *c14Mut) line() string {
 
 func (m *c14Mut) ident() string {
 	v := ""
-	if m.kind == "atval" || m.kind == "text" {
+	if m.kind == "btext" {
+		v = "=" + c14BstrValues[m.val%len(c14BstrValues)]
+	} else if m.kind == "atval" || m.kind == "text" {
 		v = "=" + c14ValName(m.val)
 	} else if m.level != "xml" && m.level != "ixml" {
 		v = fmt.Sprintf("@%d,%d,%d", m.a, m.b, m.val)
@@ -445,6 +451,11 @@ func c14XMLMuts(fix *c14Fixture, level, part string, data []byte, thorough bool)
 		for vi := range c14Values {
 			add("text", t.s, t.e, vi, t.path+"#text")
 		}
+		if strings.Contains(lp, "sharedstrings") || strings.Contains(lp, "worksheets/sheet") {
+			for vi := range c14BstrValues {
+				add("btext", t.s, t.e, vi, t.path+"#text")
+			}
+		}
 	}
 	return ms
 }
@@ -464,6 +475,8 @@ func c14ApplyXML(data []byte, m *c14Mut) []byte {
 		return cat(data[:b], data[a:b], data[b:])
 	case "atval", "text":
 		return cat(data[:a], []byte(c14Values[m.val]), data[b:])
+	case "btext":
+		return cat(data[:a], []byte(c14BstrValues[m.val%len(c14BstrValues)]), data[b:])
 	}
 	return data
 }
@@ -484,7 +497,7 @@ func c14Enumerate(fx []*c14Fixture, thorough bool) []*c14Mut {
 					l := strings.ToLower(p.name)
 					if strings.Contains(l, "worksheets/sheet") || strings.Contains(l, "sharedstrings") {
 						for _, m := range xm {
-							if m.kind == "atval" || m.kind == "text" || m.kind == "elrm" || m.kind == "atrm" {
+							if m.kind == "atval" || m.kind == "text" || m.kind == "btext" || m.kind == "elrm" || m.kind == "atrm" {
 								c := *m
 								c.mode = 1
 								ms = append(ms, &c)
